@@ -183,7 +183,16 @@ def work(item):
                 out[(i, j)] = ((q - (dr0 + drk) * mf / 2) % TWO_PI, r + (dq0 + dqk) * mf / 2)
         return out
 
-    for ctx, (kind, val) in symx.explore(body, timeout_ms=60000, index_cap=64, maxpaths=50):
+    stuck = None
+    if scheme.startswith('impl'):
+        # "the implicit iteration terminates": the exact run below would never come back either
+        res['obligations'] += 1
+        stuck = H.in_child(float_replay, m, adv, item, True)
+        if stuck:
+            res['violations'].append(('poloidal:termination', stuck, dict(kind='poloidal', item=[str(x) for x in item[:10]], concrete=stuck)))
+        else:
+            res['discharged'] += 1
+    for ctx, (kind, val) in (() if stuck else symx.explore(body, timeout_ms=60000, index_cap=64, maxpaths=50)):
         if kind != 'ok':
             if kind == 'abort' and not val.inconclusive:
                 continue
@@ -253,7 +262,11 @@ def work(item):
     return res
 
 
-def float_replay(m, adv, item):
+FLOAT_STEP_CPU_S = 120      # a float step on these grids takes milliseconds
+NONTERMINATION = 'the float step does not return within %d s of CPU time' % FLOAT_STEP_CPU_S
+
+
+def float_replay(m, adv, item, termination_only=False):
     """real float code vs. an independent float implementation (scipy-free: the exact oracle evaluated on a random f)"""
     path, qdeg, rdeg, nq, ncr, pot, param, dt, scheme, nul = item[:10]
     pre_dts = item[11] if len(item) > 11 else ()
@@ -284,10 +297,16 @@ def float_replay(m, adv, item):
         rng = np.random.RandomState(9)
         f = rng.rand(len(qpf), len(rpf)) + 0.5
         fin = f.copy()
-        for pdt in pre_dts:
-            g = np.array([[(1 + i + 2 * j) / 7.0 for j in range(len(rpf))] for i in range(len(qpf))])
-            pa.step(g, float(pdt), phi, 0.5)
-        pa.step(f, float(dt), phi, 0.5)
+        try:
+            with H.cpu_limit(FLOAT_STEP_CPU_S):
+                for pdt in pre_dts:
+                    g = np.array([[(1 + i + 2 * j) / 7.0 for j in range(len(rpf))] for i in range(len(qpf))])
+                    pa.step(g, float(pdt), phi, 0.5)
+                pa.step(f, float(dt), phi, 0.5)
+        except H.CpuTimeout:
+            return NONTERMINATION + ' (%d x %d nodes, tolerance %g; the stated iteration ends within 200 passes on this input)' % (len(qpf), len(rpf), tolf)
+        if termination_only:
+            return None
         # reference
         it = m['si'].SplineInterpolator2D(qs, rs)
         sp = m['spl'].Spline2D(qs, rs)
@@ -435,7 +454,7 @@ def main():
     run.bounds = dict(potentials='constant; omega r^2/2 (omega in {1/3,-5/7}, thorough {2,-9/2}); r-independent theta wave; random rational coefficients',
                       dt='1/4, 1/2, 2, -2, -1/2 (thorough 1/8, -3/4, 3, 1)', grids='ntheta 3-5, radial cells 2-3, uniform cubic and general degrees 2-3', schemes='explicit all; implicit for constant and rigid-rotation potentials')
     run.outside = ['arbitrary (symbolic) potentials', 'explicit and implicit variants agree to third order in dt (asymptotic statement)',
-                   'termination/convergence of the implicit iteration for general potentials', 'nodes whose foot is within rounding distance of the radial boundary', 'grid-level loop: C05']
+                   'termination of the implicit iteration beyond the listed inputs (on each listed implicit input the real float step must come back within a CPU budget before the exact run starts; a step that does not is reported)', 'nodes whose foot is within rounding distance of the radial boundary', 'grid-level loop: C05']
     run.assumptions = ['exact reals for doubles; 2*pi is the double', 'solver contracts of C08']
     run.finish(
         explanation='f fully symbolic, potential/time step from a listed exact family; the real step runs in exact arithmetic; z3 decides for '
